@@ -93,6 +93,48 @@ def run_case(ld, prog, aspects, prefix_hook=None, watchdog_s=8):
                                 c = None
                     return oa, ob, oc
                 o['interleave'] = ob.guarded(uneven)
+            if 'interleave' in aspects and status == 'ok' and m.finite \
+                    and stable_hash(repr(prog)) % 3 == 2:
+                # benign operations between two next() calls: an iteration is
+                # suspended after k examples, five operations that only look
+                # at the dataset (or are refused) are carried out on the same
+                # object, the iteration goes on, and a fresh one follows.
+                # Nothing of that is a use that may change what is delivered.
+                d4 = programs.build(ld, prog)
+                h = stable_hash(repr(prog))
+
+                def disturbed():
+                    import gc
+                    import copy as _copy
+                    import pickle
+                    n = m.n
+                    benign = [
+                        ('len', lambda: len(d4)), ('keys', lambda: d4.keys()),
+                        ('first-of-items', lambda: next(iter(d4.items()))),
+                        ('copy', lambda: d4.copy()),
+                        ('frozen-copy', lambda: d4.copy(freeze=True)),
+                        ('repr', lambda: repr(d4)), ('indexable', lambda: d4.indexable),
+                        ('ordered', lambda: d4.ordered), ('get-0', lambda: d4[0]),
+                        ('get-last', lambda: d4[-1]), ('get-out-of-range', lambda: d4[n]),
+                        ('get-absent-key', lambda: d4['absent-key']),
+                        ('unstarted-iterator', lambda: iter(d4)),
+                        ('first-of-iter', lambda: next(iter(d4))),
+                        ('pickle', lambda: pickle.dumps(d4)),
+                        ('deepcopy', lambda: _copy.deepcopy(d4)),
+                        ('slice', lambda: d4[:1]), ('pass-over-copy', lambda: list(d4.copy())),
+                        ('get-from-slice', lambda: d4[1:][0]), ('collect', gc.collect),
+                        ('unstarted-items-iterator', lambda: iter(d4.items())),
+                        ('get-from-frozen-copy', lambda: d4.copy(freeze=True)[0]),
+                        ('contains', lambda: 'absent-key' in d4.keys()),
+                        ('items-by-index', lambda: d4.items()[0]),
+                    ]
+                    it = iter(d4)
+                    head = list(itertools.islice(it, (h // 3) % (n + 1)))
+                    chosen = [benign[(h // (7 + 4 * j)) % len(benign)] for j in range(5)]
+                    for _, f in chosen:
+                        ob.guarded(f)
+                    return head + list(it), [c[0] for c in chosen], ob.take(d4, limit)
+                o['disturbed'] = ob.guarded(disturbed)
             if 'neighbour' in aspects and status == 'ok' and m.finite \
                     and len(prog['src']) <= 3 and stable_hash(repr(prog)) % 3 == 0:
                 # a second pipeline, built from the same program over a source
@@ -249,6 +291,17 @@ def judge_c01(prog, status, m, o, res):
                           {'this': got if is_err(got) else got[0], 'want': want[0],
                            'neighbour': None if is_err(got) else got[1],
                            'neighbour_want': want_b}, sig={'last_op': lo})
+            return True
+    if 'disturbed' in o:
+        res.count('suspended_iterations_with_benign_operations_in_between')
+        got = o['disturbed']
+        if is_err(got) or list(got[0]) != want[0] or got[2] != it1:
+            res.violation('iteration-disturbed-by-benign-operations', case,
+                          {'suspended_iteration': got if is_err(got) else got[0],
+                           'want': want[0],
+                           'operations_in_between': None if is_err(got) else got[1],
+                           'fresh_iteration_afterwards': None if is_err(got) else got[2]},
+                          sig={'last_op': lo, 'aspect': 'benign-operations'})
             return True
     if 'successor' in o:
         res.count('successors_of_released_pipelines_compared')
